@@ -36,7 +36,9 @@ pub enum Op {
     Prove(ProveDesc),
     /// prove every member (healthy streams), optionally corrupt one proof, verify as one batch;
     /// corrupt_kind: 0 = a response scalar changed (well-formed but invalid), 1 = an undecodable
-    /// point in the first round (malformed), 2 = one extra round (malformed)
+    /// point in the first round (malformed), 2 = one extra round (malformed), 3..=7 = a near twin: one
+    /// bit of one point encoding changed (3: A second half, 4: A first half, 5: B second half,
+    /// 6: L[0] second half, 7: A1 first half) - decodable or not as it falls
     Verify {
         members: Vec<ProveDesc>,
         action: usize,
@@ -222,6 +224,11 @@ pub fn exec_op<G: Group>(env: &mut Env<G>, client: usize, op: &Op) -> String {
                                         let mut r = crate::simrng::SimRng::new(0xC18);
                                         parts.lr.push((G::enc(&G::random_point(&mut r)), G::enc(&G::random_point(&mut r))));
                                     },
+                                    3 => parts.a[21] ^= 4,
+                                    4 => parts.a[5] ^= 4,
+                                    5 => parts.b[27] ^= 16,
+                                    6 if !parts.lr.is_empty() => parts.lr[0].0[18] ^= 2,
+                                    7 => parts.a1[3] ^= 32,
                                     _ => parts.r1[0] ^= 1,
                                 }
                                 if let Ok(q) = G::from_bytes(&parts.to_bytes()) {
@@ -540,7 +547,8 @@ impl Check for C18 {
                         gen_prove(rng, max_full, false)
                     }
                 };
-                ops.push(match rng.below(12) {
+                let mut before: Option<Op> = None;
+                let op = match rng.below(12) {
                     0 => {
                         let c = Config::generate(rng, max_full, 4);
                         Op::Construct { bits: c.bits, cap: c.cap, ext: c.ext }
@@ -580,9 +588,26 @@ impl Check for C18 {
                             members.push(d);
                         }
                         let corrupt = if rng.chance(1, 3) { Some(rng.usize_below(k)) } else { None };
-                        Op::Verify { members, action: rng.usize_below(3), corrupt, corrupt_kind: rng.below(3) as u8 }
+                        let corrupt_kind = rng.below(8) as u8;
+                        let action = rng.usize_below(3);
+                        if corrupt.is_some() && corrupt_kind >= 3 {
+                            // a near twin and the genuine batch next to each other, in either order
+                            let forged = Op::Verify { members: members.clone(), action, corrupt, corrupt_kind };
+                            let genuine = Op::Verify { members, action, corrupt: None, corrupt_kind: 0 };
+                            if corrupt_kind % 2 == 1 {
+                                before = Some(forged);
+                                genuine
+                            } else {
+                                before = Some(genuine);
+                                forged
+                            }
+                        } else {
+                            Op::Verify { members, action, corrupt, corrupt_kind }
+                        }
                     },
-                });
+                };
+                ops.extend(before);
+                ops.push(op);
             }
             clients.push(ops);
         }
